@@ -339,7 +339,13 @@ fn upoly_alphabet<K: RefField>(coeffs: &[K], maxdeg: usize) -> Vec<UPoly<K>> {
 // HPoly = single-term polynomials; reference = UPoly with one term
 
 fn main() {
-    let run = Run::new("C15", "exploration");
+    // the watchdog covers the run as a whole: with a Euclidean step that does not shrink the remainder the
+    // library's own gcd loops never return (seed `C15-qint-div-by-rational-truncates`), and a hung checker is
+    // not a verdict; quick / thorough normally finish in seconds, the cap is 60 s / 600 s
+    let run_arc = std::sync::Arc::new(Run::new("C15", "exploration"));
+    run_arc.start_watchdog(json!({"exhaustive": false, "note": "aborted by the watchdog: a library call did not terminate; counts are partial"}));
+    run_arc.enter_case(0, "the sweep as a whole (every division / gcd / gcdx / lcm call of the library must terminate)".into());
+    let run: &Run = &run_arc;
     let th = run.thorough();
 
     // ---- integers ----------------------------------------------------------------------------
@@ -415,7 +421,8 @@ fn main() {
         "types": run.get("types"),
         "exhaustive": true,
     });
-    run.finish(
+    run.leave_case(0);
+    run.finish_ref(
         coverage,
         &[
             "reference arithmetic: num-bigint based textbook algorithms in vcore::refnum (own Euclid loop per ring)",
